@@ -377,7 +377,7 @@ func (p *parser) expression(prec int) (Node, error) {
 			}
 
 			if project {
-				right, err := p.projection(newPrec)
+				right, err := p.projection(precedence(lexer.ObjectWildcardToken))
 				if err != nil {
 					return nil, err
 				}
@@ -1795,7 +1795,7 @@ func (p *parser) primaryExpression() (Node, error) {
 			}
 
 			if project {
-				right, err := p.projection(precedence(lexer.OpenSqBraceToken))
+				right, err := p.projection(precedence(lexer.ObjectWildcardToken))
 				if err != nil {
 					return nil, err
 				}
